@@ -77,7 +77,7 @@ def check_roundtrip(case):
             if c.get("text") and gen.PARTS[c["kind"]][2] == "free":
                 c["text"] = ["", " ", "\n", "\t "][ch.next(4)] + c["text"] + ["", " ", "\n  ", "  "][ch.next(4)]
                 normal = normal and c["text"] == c["text"].strip()
-    m = gen.build(built_spec)
+    m = gen.build(built_spec, numeric=bool(case.get("numeric")))
     s1 = m.to_string()
     p1 = _parse(s1, _kindsig(spec))
     if type(p1) is not type(m):
@@ -94,7 +94,7 @@ def check_roundtrip(case):
         s3 = _parse(s2, _kindsig(spec)).to_string()
         if s3 != s2:
             raise Failure("reserialize-not-idempotent", f"{s2!r} -> {s3!r}")
-    return _info(spec, ["padded"] if pads else [])
+    return _info(spec, (["padded"] if pads else []) + (["python-numbers"] if case.get("numeric") else []))
 
 
 def check_foreign(case):
@@ -131,6 +131,24 @@ _REP = {
 _REPTEXT = {"free": "t <x>", "number": "-1:30", "switch": "On", "state": "Alert", "base64": "QUJD"}
 
 
+def numeric_zero_cases():
+    """Number-carrying messages built with Python numbers, including every zero (0, 0.0, -0.0 as text '0', '0.0')."""
+    for pre, part in (("def", "defNumber"), ("set", "oneNumber"), ("new", "oneNumber")):
+        for text in ("0", "0.0", "5", "-1.5", "10", "-3"):
+            attrs = {"device": "dev", "name": "nm"}
+            if pre != "new":
+                attrs["state"] = "Ok"
+            if pre == "def":
+                attrs["perm"] = "rw"
+                attrs["timeout"] = "0"
+            pa = {"name": "e"}
+            if part == "defNumber":
+                pa.update({"format": "%f", "min": "0", "max": "0", "step": "0"})
+            yield {"spec": {"kind": f"{pre}NumberVector", "attrs": attrs, "text": None, "children": [{"kind": part, "attrs": pa, "text": text}]}, "numeric": True}
+    yield {"spec": {"kind": "setBLOBVector", "attrs": {"device": "d", "name": "n", "state": "Ok", "timeout": "0"}, "text": None,
+                    "children": [{"kind": "oneBLOB", "attrs": {"name": "b", "size": "0", "format": ""}, "text": None}]}, "numeric": True}
+
+
 def subsets_cases():
     for kind in sorted(gen.MESSAGES):
         req, opt, trule, child = gen.MESSAGES[kind]
@@ -157,14 +175,15 @@ def subsets_cases():
                 yield {"spec": {"kind": kind, "attrs": attrs, "text": text, "children": three}}
 
 
-SUBCHECKS = {"subsets": check_roundtrip, "roundtrip": check_roundtrip, "foreign": check_foreign}
+SUBCHECKS = {"numeric": check_roundtrip, "subsets": check_roundtrip, "roundtrip": check_roundtrip, "foreign": check_foreign}
 
 
 def run(ctx):
+    ctx.each("numeric", numeric_zero_cases(), check_roundtrip, stop_after=3)
     n = ctx.each("subsets", subsets_cases(), check_roundtrip, stop_after=3)
     ctx.exhaustive["subsets"] = {"n_cases": n, "complete": True, "bound": "kind x optional-attribute subsets x {0,1,3} children x part optional subsets x text present/absent"}
     rt = st.fixed_dictionaries(
-        {"spec": gen.msg_spec(max_children=8), "pad": st.one_of(st.just([]), st.lists(st.integers(0, 3), min_size=1, max_size=6))}
+        {"spec": gen.msg_spec(max_children=8), "pad": st.one_of(st.just([]), st.lists(st.integers(0, 3), min_size=1, max_size=6)), "numeric": st.booleans()}
     )
     ctx.hyp("roundtrip", rt, check_roundtrip, ctx.scale(700, 15000))
     fo = st.fixed_dictionaries(
